@@ -176,10 +176,10 @@ func c02RetryEdges(c *Ctx, fn *ssa.Function, b *ana.Builder, call ssa.CallInstru
 		}
 		errT := b.Of(e.Results[1], e.Instr)
 		if errT.Is("nil") {
-			r.Check(mustPass(fn, e.Instr.Block(), okNil), "C02.retry-edge."+name+".success-needs-nil", c.ipos(e.Instr), "success return only when the key call's error is nil")
+			r.Check(exitMustPass(fn, e, okNil), "C02.retry-edge."+name+".success-needs-nil", c.ipos(e.Instr), "success return only when the key call's error is nil")
 			continue
 		}
-		if w, _ := ana.Find(et, errT); w != nil && mustPass(fn, e.Instr.Block(), notNil) {
+		if w, _ := ana.Find(et, errT); w != nil && exitMustPass(fn, e, notNil) {
 			propagated = true
 		}
 	}
@@ -383,7 +383,7 @@ func c02Derive(c *Ctx) {
 					noHmacBefore = false
 				}
 			}
-			hp = mustPass(fn, e.Instr.Block(), hardE) && mustPass(fn, e.Instr.Block(), np) && noHmacBefore
+			hp = exitMustPass(fn, e, hardE) && exitMustPass(fn, e, np) && noHmacBefore
 		}
 	}
 	r.Check(hp, "C02.hardened-pub.reject", c.P.Pos(fn.Pos()), "ErrHardenedChildPublicKey under index >= 2^31 ∧ !IsPrivate, before any HMAC")
@@ -728,7 +728,7 @@ func c02Misc(c *Ctx) {
 			}
 			vt := b.Of(e.Results[0], e.Instr)
 			if _, ok := ana.MatchAny(vt, "slice(alloc<[4]byte>, 0, 4)", "makeslice<[]byte>(4, 4)"); ok {
-				r.Check(mustPass(fn, e.Instr.Block(), nilE), "C02.fingerprint.master", c.ipos(e.Instr), "4 zero bytes exactly when there is no parent")
+				r.Check(exitMustPass(fn, e, nilE), "C02.fingerprint.master", c.ipos(e.Instr), "4 zero bytes exactly when there is no parent")
 				continue
 			}
 			bd, ok := ana.Match("slice(call<*>(call<("+slipPkg+"Key).Bytes>(call<("+slipPkg+"Key).Public>(load(faddr<#2>(p0))))), 0, 4)", vt)
@@ -879,7 +879,7 @@ func c02Eddsa(c *Ctx) {
 		for _, e := range ana.Exits(f.Function) {
 			if e.Panic {
 				es := edgesMatching(b, "bin<!=>(len(p1), 32)")
-				r.Check(mustPass(f.Function, e.Instr.Block(), plainEdges(es)), "C02.eddsa-keys.new-private-key.panic", c.ipos(e.Instr), "panics only for a buffer that is not 32 bytes (never for I_L)")
+				r.Check(exitMustPass(f.Function, e, plainEdges(es)), "C02.eddsa-keys.new-private-key.panic", c.ipos(e.Instr), "panics only for a buffer that is not 32 bytes (never for I_L)")
 				continue
 			}
 			vt := b.Of(e.Results[0], e.Instr)
